@@ -142,9 +142,9 @@ func thresholdOps(d *rj.Value) []r69.Op {
 // stringSizePhase: depth 2 over the string documents of every swept length.
 func stringSizePhase(p *seqProp, tier string) *seqProp {
 	d := *p
-	sizes := sweepSizes(130, 200, 256, 500, 1000, 1024, 4096, 10000)
+	sizes := sweepSizes(300, 500, 1000, 1024, 4096, 10000)
 	if tier == "thorough" {
-		sizes = sweepSizes(300, 500, 512, 1000, 1024, 2048, 4096, 10000, 65536)
+		sizes = sweepSizes(700, 1000, 1024, 2048, 4096, 10000, 65536)
 	}
 	d.Docs = nil
 	for _, n := range sizes {
